@@ -3,6 +3,8 @@ CONSTANTS MaxRuns = 2 MaxTouch = 99
   Scens <- ScenExpB
   Settings <- SettingsAll
   CreatedSetsChanged = TRUE
+  Reuses = {FALSE, TRUE}
+  AutoReload = TRUE
   KeepHistory = TRUE
 INVARIANT Emitted
 CHECK_DEADLOCK FALSE
